@@ -349,6 +349,53 @@ def ending_final_justified(s):
             or not master_shared(s))
 
 
+def instance_states_step(s, o, frm, to):
+    """the local view of the instances only moves from a state of `frm` to a state of `to`; the Master is kept or reset,
+    and it is reset when it is no longer seen RUNNING (update_instance_state, verified in c02.py); the local entry of the
+    state & modes map is never replaced, replaced entries are those of instances now STOPPED / ISOLATED"""
+    st, ost = LOCAL(s).instance_states, LOCAL(o).instance_states
+    return (forall(str, lambda i: (i in st) == (i in ost)
+                   and implies(i in st, st[i] == ost[i] or (ost[i] in frm and st[i] in to)))
+            and forall(str, lambda i: (i in ISM(s)) == (i in ISM(o))
+                       and implies(i in ISM(s), ISM(s)[i] is ISM(o)[i]
+                                   or (i != LID(s) and was_fresh(ISM(s)[i])
+                                       and ISM(s)[i].state == SupvisorsStates.OFF and ISM(s)[i].master_identifier == '')))
+            and LOCAL(s) is LOCAL(o)
+            and (master(s) == master(o) or master(s) == '')
+            and implies(master(s) != '' and master(s) in ost, master(s) in st and (
+                st[master(s)] == ost[master(s)] or st[master(s)] == SupvisorsInstanceStates.RUNNING))
+            and forall(str, lambda i: implies(i in ISM(s) and ISM(s)[i] is ISM(o)[i] and i != LID(s),
+                                              ISM(s)[i].master_identifier == ISM(o)[i].master_identifier)))
+
+
+@contract('statemachine:_WorkingState._activate_instances', props=['C02', 'C08'])
+class WorkingActivateInstances:
+    """'Back to ELECTION when a new Supvisors instance is detected' - a self-decision of OPERATION / CONCILIATION, so C08
+    clause 1 is stated here (DistributionState overrides it with 'no activation')"""
+    raises = ()
+    returns = 'Optional[SupvisorsStates]'
+    variants = ['OperationState', 'ConciliationState']
+
+    def pre_valid(self):
+        return valid_state(self)
+
+    def modifies(self):
+        return [but_wiring(self)]
+
+    def post_domain(self, result):
+        return result is None or result == SupvisorsStates.ELECTION
+
+    def post_c08_self_decision_in_table(self, result):
+        return in_table(self, result)
+
+    def post_step(self, old):
+        return instance_states_step(self, old.self, (SupvisorsInstanceStates.CHECKED,),
+                                    (SupvisorsInstanceStates.RUNNING,))
+
+    def post_shape(self):
+        return valid_state(self)
+
+
 def consistence_posts_doc():
     """_check_consistence of the states past SYNCHRONIZATION is where a state object decides ON ITS OWN to leave (local
     instance not RUNNING -> OFF, failure strategy -> SYNCHRONIZATION / SHUTTING_DOWN, Master not shared -> ELECTION); the
